@@ -545,3 +545,38 @@ def ex_rfa_rel(c):
 
 
 EXECUTORS.update({"rfa_rel": ex_rfa_rel})
+
+
+# ---------------------------------------------------------------------------------------------- C01 / C03 integral matching
+import traffic_weaver.match as match_mod  # noqa: E402
+
+
+def match_call(c, x, y):
+    kw = dict(fixed_points_finding_strategy=c["strategy"], target_function_integral_method=c["trule"],
+              reference_function_integral_method=c["rrule"], alpha=c["alpha_f"] if "alpha_f" in c else fl(c["alpha"]))
+    if c["mode"] == "positions":
+        kw["fixed_points_in_x"] = [fl(r) for r in c["given"]]
+    elif c["mode"] == "indices":
+        kw["fixed_points_indices_in_x"] = list(c["given"])
+    return match_mod.integral_matching_reference_stretch(x, y, arr(c["xref"]), arr(c["yref"]), **kw)
+
+
+def ex_match(c):
+    x, y = arr(c["x"], c.get("container", "array")), arr(c["y"], c.get("container", "array"))
+    y0 = np.array(y, dtype=float, copy=True)
+    oc, o = guarded(lambda: match_call(c, x, y))
+    oc2, o2 = guarded(lambda: match_call(c, x, o)) if oc == "ok" else ("skipped", None)
+    e = {k: v for k, v in c.items() if k not in ("alpha_f", "bounded")}
+    small = False
+    if oc == "ok":
+        try:
+            oa = np.asarray(o, dtype=float)
+            small = bool(c.get("bounded", False) and oa.shape == y0.shape and np.all(np.isfinite(oa)) and np.max(np.abs(oa)) < 100
+                         and np.max(np.abs(y0)) < 100 and np.max(np.abs(oa - y0)) < 10)
+        except Exception:
+            small = False
+    e.update(outcome=oc, out=vec(o) if oc == "ok" else [], out2=vec(o2) if oc2 == "ok" else [], wout=[], small=small)
+    return e
+
+
+EXECUTORS.update({"match": ex_match})
